@@ -4,6 +4,7 @@ import (
 	"fmt"
 	"math/big"
 	"strings"
+	"sync"
 	"testing"
 	"time"
 
@@ -40,7 +41,7 @@ func TestVerif_C16(t *testing.T) {
 	r.SetRule("W-feed: batches of deposits/transfers/withdrawals are validated with the node's own validateSnapshotTransaction(s,false) " +
 		"(which includes the batch rules) on the current ledger, 1..4 such snapshots on different chains stay pending together, then each is certified (real CoSi) and " +
 		"delivered through the finalization path in random order; a panic or error out of the snapshot write after successful validation is the refuting event. " +
-		"Deposits are sized near the BTC/ETH capacities and include first deposits of unknown assets. non-trivial = distinct validated snapshots that were delivered")
+		"Deposits are sized near the BTC/ETH capacities and include first deposits of unknown assets; two wide batches (2 x 64 outputs x 64 keys, 3 x 256 outputs x 250 keys) are validated together and finalized. non-trivial = distinct validated snapshots that were delivered")
 	r.Assume("the single replica plays one honest signer; the certificate is produced with the real signer keys of the test network")
 	rng := r.Rand()
 	f := verifNewFeed(t, fmt.Sprintf("c16-%d", r.Seed), 7, rng, t.TempDir(), nil)
@@ -108,7 +109,7 @@ func TestVerif_C16(t *testing.T) {
 		conflictInfo := false
 		if sameAsset {
 			a := assets[1+rng.Intn(2)] // BTC or ETH
-			if rng.Intn(6) == 0 { // a fresh asset whose pending first deposits disagree on chain data
+			if rng.Intn(6) == 0 {      // a fresh asset whose pending first deposits disagree on chain data
 				unknownCount++
 				a = verifgen.AssetInfo{Id: crypto.Sha256Hash([]byte(fmt.Sprintf("verif-c16-conflict-%d-%d", r.Seed, unknownCount))),
 					Chain: common.EthereumAssetId, Key: fmt.Sprintf("0xc%039d", unknownCount)}
@@ -175,15 +176,35 @@ func TestVerif_C16(t *testing.T) {
 					}
 					p.deposit = info
 				} else {
+					var ins []*verifgen.Out
 					if rng.Intn(5) == 0 {
-						tx, specs, _ = w.TransferWithdrawal(1+rng.Intn(3), 1+rng.Intn(3), true)
+						tx, specs, ins = w.TransferWithdrawal(1+rng.Intn(3), 1+rng.Intn(3), true)
 						kind = "withdrawal"
 					} else {
-						tx, specs, _ = w.Transfer(1+rng.Intn(3), 1+rng.Intn(3), true)
+						tx, specs, ins = w.Transfer(1+rng.Intn(3), 1+rng.Intn(3), true)
 						kind = "transfer"
 					}
 					if tx == nil {
 						continue
+					}
+					// hostile shape: one of the later outputs gets a special output type (usually refused by validation;
+					// whatever validation lets through must finalize)
+					if len(specs) >= 2 && (rng.Intn(10) == 0 || kind == "withdrawal" && len(specs) >= 3 && rng.Intn(2) == 0) {
+						special := []uint8{common.OutputTypeWithdrawalClaim, common.OutputTypeWithdrawalClaim, common.OutputTypeWithdrawalSubmit, common.OutputTypeNodePledge,
+							common.OutputTypeNodeAccept, common.OutputTypeNodeCancel}
+						ms := append([]verifgen.OutSpec{}, specs...)
+						j := 1 + rng.Intn(len(ms)-1)
+						if rng.Intn(2) == 0 {
+							j = len(ms) - 1
+						}
+						ty := special[rng.Intn(len(special))]
+						ms[j] = verifgen.OutSpec{Type: ty, Amount: ms[j].Amount}
+						if ty == common.OutputTypeWithdrawalSubmit {
+							ms[j].Withdrawal = &common.WithdrawalData{Address: "addr2", Tag: "t"}
+						}
+						raw := verifgen.BuildTx(ins[0].Asset, ins, ms, nil, nil)
+						tx, specs = verifgen.SignMap(raw, ins, verifgen.FirstN(ins)), ms
+						kind = fmt.Sprintf("%s-with-output-type-%d", kind, ty)
 					}
 				}
 				p.txs = append(p.txs, tx)
@@ -309,6 +330,76 @@ func TestVerif_C16(t *testing.T) {
 			}
 		}
 	}
+	// 3. wide batches: a few transactions with many outputs of many keys each (well inside the transaction size
+	// and slice limits), validated together by the node and then finalized
+	for _, shape := range [][3]int{{2, 64, 64}, {6, 256, 250}} {
+		nTx, outs, keys := shape[0], shape[1], shape[2]
+		txs, specs, err := vC16Wide(f, w, nTx, outs, keys, fmt.Sprintf("%d-%d", r.Seed, outs))
+		if err != nil {
+			r.Count("wide_batch_not_buildable", 1)
+			t.Logf("wide batch: %v", err)
+			continue
+		}
+		chainId := f.net.NodeIds[1+rng.Intn(len(f.net.NodeIds)-1)]
+		hashes := make([]crypto.Hash, len(txs))
+		size := 0
+		for i, tx := range txs {
+			hashes[i] = tx.PayloadHash()
+			size += len(tx.Marshal())
+			if err := f.node.persistStore.CacheStoreTransaction(tx); err != nil {
+				t.Fatal(err)
+			}
+		}
+		snap, err := f.nextSnapshot(chainId, hashes, f.tick(uint64(1500*time.Millisecond)))
+		if err != nil {
+			r.Count("snapshot_build_skipped", 1)
+			continue
+		}
+		var verr error
+		var missing []crypto.Hash
+		panicked, _, _ := verifkit.Guard(func() { _, missing, verr = f.node.validateSnapshotTransaction(snap, false) })
+		r.Eval()
+		if panicked || verr != nil || len(missing) > 0 {
+			r.Count("wide_batches_rejected_by_validation", 1)
+			t.Logf("wide batch rejected: %v", verr)
+			continue
+		}
+		r.Count("wide_batches_validated", 1)
+		if _, err := f.sign(snap, 0); err != nil {
+			r.Count("sign_errors", 1)
+			continue
+		}
+		delivered++
+		r.Nontrivial(snap.Hash.String())
+		d := f.deliver(snap, txs)
+		if !d.Finalized && !d.Panicked && d.Err == nil {
+			d = f.deliver(snap, txs)
+		}
+		if d.Panicked || d.Err != nil {
+			site, msg := "error", fmt.Sprint(d.Err)
+			if d.Panicked {
+				site, msg = verifkit.PanicSite(d.Stack), fmt.Sprint(d.PanicVal)
+			}
+			class := "batch:wide-outputs"
+			if strings.Contains(msg, "Txn is too big") {
+				class = "snapshot-write-exceeds-the-database-transaction-limit"
+			}
+			r.Violation("C16|"+site+"|"+class,
+				fmt.Sprintf("a snapshot of %d transactions (%d outputs of %d keys each, %d bytes in total) validated by the node failed to finalize (%s): %s", nTx, outs, keys, size, site, msg),
+				map[string]any{"site": site, "class": class, "message": msg, "transactions": nTx, "outputs_per_transaction": outs, "keys_per_output": keys, "signed_bytes": size})
+			if err := f.restart(); err != nil {
+				t.Fatalf("restart after failed finalization: %v", err)
+			}
+			continue
+		}
+		if d.Finalized {
+			finalizedCount++
+			r.Count("wide_batches_finalized", 1)
+			for i, tx := range txs {
+				w.Applied(tx, specs[i])
+			}
+		}
+	}
 	r.Note("snapshots_delivered", delivered)
 	r.Note("snapshots_finalized", finalizedCount)
 	r.Note("topology_at_end", f.node.TopologicalOrder())
@@ -340,4 +431,48 @@ func vC16Hex(txs []*common.VersionedTransaction) []string {
 		out = append(out, fmt.Sprintf("%x", b))
 	}
 	return out
+}
+
+var vC16OwnerCache []common.Address
+
+// vC16Wide funds and builds nTx transfers with `outs` outputs of `keys` keys each (threshold 1, one unit each).
+func vC16Wide(f *verifFeed, w *verifgen.Wallet, nTx, outs, keys int, tag string) ([]*common.VersionedTransaction, [][]verifgen.OutSpec, error) {
+	for len(vC16OwnerCache) < keys {
+		vC16OwnerCache = append(vC16OwnerCache, verifgen.Addr(fmt.Sprintf("c16-owner-%d", len(vC16OwnerCache))))
+	}
+	owners := vC16OwnerCache[:keys]
+	btc := verifgen.Assets()[1]
+	txs := make([]*common.VersionedTransaction, nTx)
+	specs := make([][]verifgen.OutSpec, nTx)
+	for i := 0; i < nTx; i++ {
+		fs := verifgen.OutSpec{Type: common.OutputTypeScript, Owners: owners[:1], Threshold: 1, Amount: verifgen.UnitsU(uint64(outs)), Seed: verifgen.Seed64(fmt.Sprintf("c16-wide-fund-%s-%d", tag, i))}
+		dep := verifgen.Deposit(w.Custodian, btc.Id, btc.Chain, btc.Key, fmt.Sprintf("0xc16wide-%s-%d", tag, i), 0, fs.Amount, fs)
+		if _, d := f.feedBatch(f.net.NodeIds[1+i%(len(f.net.NodeIds)-1)], []*common.VersionedTransaction{dep}, f.tick(uint64(1500*time.Millisecond))); !d.Finalized {
+			return nil, nil, fmt.Errorf("funding deposit not finalized: %v %v", d.Err, d.PanicVal)
+		}
+		funding := verifgen.OutsOf(dep, []verifgen.OutSpec{fs})
+		var wg sync.WaitGroup
+		sp := make([]verifgen.OutSpec, outs)
+		for k := range sp {
+			sp[k] = verifgen.OutSpec{Type: common.OutputTypeScript, Owners: owners, Threshold: 1, Amount: verifgen.UnitsU(1), Seed: verifgen.Seed64(fmt.Sprintf("c16-wide-%s-%d-%d", tag, i, k))}
+		}
+		// key derivation dominates: derive the outputs of the parts in parallel, then join them in order
+		parts := make([]*common.Transaction, 16)
+		for p := range parts {
+			wg.Add(1)
+			go func(p int) {
+				defer wg.Done()
+				lo, hi := p*outs/16, (p+1)*outs/16
+				parts[p] = verifgen.BuildTx(btc.Id, nil, sp[lo:hi], nil, nil)
+			}(p)
+		}
+		wg.Wait()
+		raw := verifgen.BuildTx(btc.Id, funding, nil, nil, nil)
+		for _, part := range parts {
+			raw.Outputs = append(raw.Outputs, part.Outputs...)
+		}
+		txs[i] = verifgen.SignMap(raw, funding, [][]int{{0}})
+		specs[i] = sp
+	}
+	return txs, specs, nil
 }
